@@ -5,11 +5,13 @@ import (
 	"errors"
 	"fmt"
 	"net"
+	"os"
 	"reflect"
 	"runtime"
 	"sort"
 	"strings"
 	"sync"
+	"syscall"
 	"testing"
 	"testing/synctest"
 	"time"
@@ -27,8 +29,8 @@ import (
 // Tx is one scripted client transaction.
 type Tx struct {
 	StartMs     int    `json:"start_ms"`
-	Kind        string `json:"kind"` // binding | raw | ignore
-	Lost        []bool `json:"lost"` // per transmission 0..6: the server never sees it
+	Kind        string `json:"kind"`    // binding | raw | ignore
+	Lost        []bool `json:"lost"`    // per transmission 0..6: the server never sees it
 	RespTo      int    `json:"resp_to"` // answer the n-th transmission (-1: never)
 	RespDelayMs int    `json:"resp_delay_ms"`
 	WrongFirst  bool   `json:"wrong_id_first,omitempty"`
@@ -36,6 +38,9 @@ type Tx struct {
 	Late        bool   `json:"late,omitempty"`       // one more response 5 s after the first
 	FromOther   bool   `json:"from_other,omitempty"` // the response comes from another source address
 	WriteFailAt int    `json:"write_fail_at"`        // -1 none; else this transmission's socket write fails
+	// WriteErr: what kind of error the failing write reports: "" plain | timeout (net.Error with
+	// Timeout() true, as a write deadline or EAGAIN gives) | refused (ECONNREFUSED from an ICMP error) | closed
+	WriteErr string `json:"write_err,omitempty"`
 }
 
 // C12Case is the replay format.
@@ -68,6 +73,7 @@ type failConn struct {
 	mu    sync.Mutex
 	count map[int]int
 	fail  map[int]int // dest port -> transmission index whose write fails
+	kind  map[int]string
 	spin  bool
 	slow  time.Duration // the first write to every destination returns this much later
 }
@@ -87,6 +93,15 @@ func (f *failConn) WriteTo(b []byte, a net.Addr) (int, error) {
 			for i := 0; i < 300; i++ { // a few microseconds of real time in which other goroutines run
 				runtime.Gosched()
 			}
+		}
+
+		switch f.kind[port] {
+		case "timeout":
+			return 0, &net.OpError{Op: "write", Net: "udp", Addr: a, Err: os.ErrDeadlineExceeded}
+		case "refused":
+			return 0, &net.OpError{Op: "write", Net: "udp", Addr: a, Err: os.NewSyscallError("sendto", syscall.ECONNREFUSED)}
+		case "closed":
+			return 0, &net.OpError{Op: "write", Net: "udp", Addr: a, Err: net.ErrClosed}
 		}
 
 		return 0, errors.New("sim: injected write failure")
@@ -167,7 +182,7 @@ func runC12Inner(c *C12Case) c12Result { //nolint:cyclop,gocyclo,maintidx
 	if err != nil {
 		return c12Result{kind: "harness", msg: err.Error()}
 	}
-	fc := &failConn{PacketConn: csock, count: map[int]int{}, fail: map[int]int{}, spin: c.Tie, slow: time.Duration(c.SlowFirstWriteUs) * time.Microsecond}
+	fc := &failConn{PacketConn: csock, count: map[int]int{}, fail: map[int]int{}, kind: map[int]string{}, spin: c.Tie, slow: time.Duration(c.SlowFirstWriteUs) * time.Microsecond}
 	off137, off17, off7 := 137*time.Microsecond, 17*time.Microsecond, 7*time.Microsecond
 	if c.Tie {
 		off137, off17, off7 = 0, 0, 0
@@ -199,6 +214,7 @@ func runC12Inner(c *C12Case) c12Result { //nolint:cyclop,gocyclo,maintidx
 		servers[i] = s
 		if tx.WriteFailAt >= 0 {
 			fc.fail[port] = tx.WriteFailAt
+			fc.kind[port] = tx.WriteErr
 		}
 		// scripted server for this transaction
 		go func(i int, tx *Tx, s *sim.UDPSock) {
@@ -598,6 +614,7 @@ func genC12(rt *rapid.T) *C12Case {
 		}
 		if rapid.IntRange(0, 5).Draw(rt, "writeFail") == 0 {
 			tx.WriteFailAt = rapid.IntRange(0, 6).Draw(rt, "writeFailAt")
+			tx.WriteErr = rapid.SampledFrom([]string{"", "", "timeout", "refused", "closed"}).Draw(rt, "writeErr")
 		}
 		c.Txs = append(c.Txs, tx)
 	}
